@@ -319,6 +319,7 @@ func cmdCheck(args []string) int {
 	}
 	var fsum []fnSummary
 	total, discharged, known := 0, 0, 0
+	var knownObls []map[string]any
 	byKind := map[string]int{}
 	bySolver := map[string]int{}
 	var solverMS int64
@@ -426,10 +427,14 @@ func cmdCheck(args []string) int {
 					matched = true
 					usedFindings[i] = true
 					known++
+					knownObls = append(knownObls, map[string]any{"function": k, "obligation": r.Name, "solver_answer": r.Status, "what": fd.What})
 					fmt.Printf("KNOWN-FINDING: property=%s %s#%s %s\n", *prop, k, r.Name, fd.What)
 				}
 			}
 			if matched {
+				// an open finding is not claimed as proved: it is listed separately, not counted
+				total--
+				sum.Obligations--
 				continue
 			}
 			reason := r.Desc
@@ -553,6 +558,7 @@ func cmdCheck(args []string) int {
 			"obligations":            total,
 			"discharged":             discharged,
 			"known_findings":         known,
+			"known_finding_obligations": knownObls,
 			"checker_cmd":            fmt.Sprintf("bin/hvc check --property %s --tier %s", *prop, *tier),
 			"trusted_base":           tb,
 			"functions":              fsum,
@@ -570,7 +576,7 @@ func cmdCheck(args []string) int {
 			"bounded_cases":          boundedCases,
 			"contracts_read_from":    e.contractSource,
 			"integers":               "Go integers are mathematical integers constrained to their range; wrap-around is explicit for sized types, int/int64 arithmetic is mathematical (listed when used)",
-			"explanation":            "every obligation is a negated verification condition generated from the SSA of /repo's working tree and refuted by an SMT solver",
+			"explanation":            "every obligation is a negated verification condition generated from the SSA of /repo's working tree and refuted by an SMT solver; 'obligations' counts the obligations claimed as proved on this run - obligations that fail and are listed as open findings in known_findings.txt are reported as KNOWN-FINDING, listed under known_finding_obligations and not counted",
 		},
 	}
 	writeEvidence(evPath, ev)
